@@ -69,7 +69,7 @@ def run_jobs(jobs, nproc=None, progress=None, mem_gb=None):
                 outpath = os.path.join(tmpd, "r%d.pkl" % i)
                 pid = os.fork()
                 if pid == 0:
-                    _child(job, outpath, mem_bytes)
+                    _child(job, outpath, int(job["mem_gb"] * (1 << 30)) if job.get("mem_gb") else mem_bytes)
                 # hard wall limit: the job's own time budget (checked between paths) plus slack for one long solver call
                 limit = job.get("time_budget", 3600) + 300
                 running[pid] = (i, outpath, time.time(), limit)
